@@ -4,8 +4,8 @@ from .. import vlib
 
 TRUSTED = [
     "Lean 4.33 kernel; axioms per theorem listed under coverage.axioms (subset of propext, Classical.choice, Quot.sound)",
-    "harness/action.cpp (reads Action::AST / ASTNode through their public serializeOp; classifies tokens with the real Parser::get_type/get_func) + lib/vlib.py differ; model driver (compiled Lean)",
-    "modelled, not verified: token classification (strtod, case folding, summary keyword categories), shmatch wildcard matching and WLIST look-up (answers passed to the model), SummaryState storage",
+    "harness/action.cpp (reads Action::AST / ASTNode through their public serializeOp; sends raw token strings with the real strtod value and get_func code) + lib/vlib.py differ; model driver (compiled Lean)",
+    "modelled, not verified: the value strtod returns, get_func (summary keyword categories), fnmatch bracket expressions, SummaryState storage; State::load_rst and dequote have no direct correspondence op",
 ]
 
 
